@@ -238,7 +238,7 @@ func (s *Solver) CheckSet(terms []*Term, vars []string, wantModel bool) (SatResu
 	default:
 		atomic.AddInt64(&gStats.Unknown, 1)
 	}
-	if d := os.Getenv("SYMGO_DUMPQ"); d != "" && time.Since(t0) > 15*time.Millisecond {
+	if d := os.Getenv("SYMGO_DUMPQ"); d != "" && time.Since(t0) > time.Duration(envInt("SYMGO_DUMPQ_MS", 15))*time.Millisecond {
 		if n := atomic.AddInt64(&gDumped, 1); n <= 20 {
 			os.WriteFile(fmt.Sprintf("%s/q%d_%dms.smt2", d, n, time.Since(t0).Milliseconds()), []byte(s.dump(nil, false)), 0o644)
 		}
@@ -301,6 +301,13 @@ var gPrimarySolver = envOr("SYMGO_SOLVER", "z3-new")
 
 func envOr(k, d string) string {
 	if v := os.Getenv(k); v != "" {
+		return v
+	}
+	return d
+}
+
+func envInt(k string, d int) int {
+	if v, err := strconv.Atoi(os.Getenv(k)); err == nil {
 		return v
 	}
 	return d
